@@ -46,7 +46,7 @@ CfgsGen == CfgsGenQ \cup
       st \in {<<Ad("limit", 1), Ad("map", 0)>>, <<Ad("enumerate", 0), Ad("map", 0), Ad("take", 1)>>}}
 
 CfgsLiveQ == {Mk("co", 0, <<Ad("limit", 1)>>, t, "std", B(FALSE, 1, 2, 1, 0, 0, 0, FALSE, FALSE)) : t \in {"for_each", "try_for_each"}}
-CfgsLive == {Mk("co", 0, <<Ad("limit", 1), Ad("map", 0)>>, t, "std", B(FALSE, 1, 2, 1, 1, 1, 1, FALSE, FALSE)) : t \in Terms}
+CfgsLive == {Mk("co", 0, <<Ad("limit", 1), Ad("map", 0)>>, t, "std", B(FALSE, 1, 2, 1, 0, 0, 1, FALSE, FALSE)) : t \in Terms}
 
 ExportOK == ExportEnd => PrintT("VEC " \o ToJson([cfg |-> cfg, hist |-> hist']))
 =============================================================================
